@@ -4,7 +4,7 @@ CONSTANTS
   MaxOps = 6
   MaxWire = 3
   BarrierBug = FALSE
-  ResetLoose = FALSE
+  ResetLoose = TRUE
   LoseFlagInClosing = FALSE
   LocalOps = {"read", "read1", "write", "bigwrite", "flush", "close", "close_read", "drop"}
   EnvOps = {"eof", "block", "unblock"}
